@@ -55,6 +55,8 @@ type splitIn struct {
 	SegDurMS    int      `json:"seg_dur_ms"`
 	Mode        string   `json:"mode"`
 	Cont        bool     `json:"cont"`
+	StartTimeS  int      `json:"start_time_s"`
+	StartNr     *int     `json:"start_nr,omitempty"`
 	StartTimeMS int      `json:"start_time_ms"`
 	NowMS       int      `json:"now_ms"`
 	AS          []asSpec `json:"as"`
@@ -68,7 +70,9 @@ type c06in struct {
 	PPH       int64     `json:"pph,omitempty"`
 	Tsbd      int64     `json:"tsbd,omitempty"` // -1: default
 	Cont      bool      `json:"cont,omitempty"`
-	Extra     string    `json:"extra,omitempty"` // further URL parts in front, e.g. "snr_5/"
+	Extra     string    `json:"extra,omitempty"` // further URL parts in front
+	StartS    int64     `json:"start_s"`
+	Snr       int64     `json:"snr"` // -1: not in the URL (default start number 0)
 	NowMS     int64     `json:"now_ms,omitempty"`
 	URLSingle string    `json:"url_single,omitempty"`
 	URLMulti  string    `json:"url_multi,omitempty"`
@@ -170,7 +174,7 @@ type mpdSpec struct {
 }
 
 func prefix(in c06in, multi bool) string {
-	cfg := lib.TLCfg{Snr: -1, Tsbd: in.Tsbd, Mode: in.Mode}
+	cfg := lib.TLCfg{StartS: in.StartS, Snr: in.Snr, Tsbd: in.Tsbd, Mode: in.Mode}
 	p := in.Extra + cfg.URLPrefix()
 	if multi {
 		p = fmt.Sprintf("periods_%d/", in.PPH) + p
@@ -299,11 +303,13 @@ func (lr *liveRun) oracle(id string, in c06in, a *lib.TLAsset, sm *m.MPD, multi 
 	if sm.TimeShiftBufferDepth != nil {
 		tsbdMS = int64(*sm.TimeShiftBufferDepth) / 1_000_000
 	}
+	astMS := in.StartS * 1000
 	winStart := in.NowMS - tsbdMS
-	if winStart < 0 {
-		winStart = 0
+	if winStart < astMS {
+		winStart = astMS
 	}
-	k0, k1 := winStart/(P*1000), in.NowMS/(P*1000)
+	// periods are counted from availabilityStartTime
+	k0, k1 := (winStart-astMS)/(P*1000), (in.NowMS-astMS)/(P*1000)
 	if int64(len(mm.Periods)) != k1-k0+1 {
 		lr.fail(id, "tiling:count", fmt.Sprintf("%d periods, expected P%d..P%d", len(mm.Periods), k0, k1), in)
 		return
@@ -408,11 +414,11 @@ func (lr *liveRun) oracle(id string, in c06in, a *lib.TLAsset, sm *m.MPD, multi 
 			}
 			// implied segments of this period that have ended: index i (from availabilityStartTime)
 			iLo := k * P * ts / d
-			iHi := in.NowMS*ts/(1000*d) - 1
+			iHi := (in.NowMS-astMS)*ts/(1000*d) - 1
 			if e := (k+1)*P*ts/d - 1; e < iHi {
 				iHi = e
 			}
-			if w := (winStart*ts + 1000*d - 1) / (1000 * d); w > iLo {
+			if w := ((winStart-astMS)*ts + 1000*d - 1) / (1000 * d); w > iLo {
 				iLo = w
 			}
 			n := int(iHi - iLo + 1)
@@ -502,6 +508,14 @@ func (lr *liveRun) live(id int, in c06in, a *lib.TLAsset, inQuantifier bool) (st
 	}
 	if inQuantifier {
 		lr.oracle(sid, in, a, sm, multi)
+	} else {
+		// periods-per-hour outside 1..3600: refused as a configuration error, never a panic
+		switch {
+		case multi.Panic != "":
+			lr.fail(sid, "panic:"+multi.Panic, fmt.Sprintf("periods_%d: handler panicked", in.PPH), in)
+		case multi.Status != 400:
+			lr.fail(sid, fmt.Sprintf("pph-range:status-%d", multi.Status), fmt.Sprintf("periods_%d answered %d, expected 400", in.PPH, multi.Status), in)
+		}
 	}
 	// correspondence
 	status := multi.Status
@@ -535,7 +549,11 @@ func (lr *liveRun) live(id int, in c06in, a *lib.TLAsset, inQuantifier bool) (st
 	if sm.MinimumUpdatePeriod != nil {
 		segMS = int64(*sm.MinimumUpdatePeriod) / 1_000_000
 	}
-	term := fmt.Sprintf("CLive %d %s %d %s %s 0 %d %d\n  [%s]\n  %d %s %s", id, lib.Zs(in.PPH), segMS, coqMode(in.Mode), lib.Cbool(in.Cont), in.NowMS, tsbdMS,
+	snr := in.Snr
+	if snr < 0 {
+		snr = 0
+	}
+	term := fmt.Sprintf("CLive %d %s %d %s %s %d %d %d %d\n  [%s]\n  %d %s %s", id, lib.Zs(in.PPH), segMS, coqMode(in.Mode), lib.Cbool(in.Cont), in.StartS, snr, in.NowMS, tsbdMS,
 		strings.Join(ases, "; "), status, periods, pub)
 	return term, true
 }
@@ -696,7 +714,23 @@ func run(c *lib.Ctx) error {
 					if eff/P > 40 {
 						tsbd, eff = 10, 10
 					}
-					in := c06in{Kind: "live", Asset: sp.path, MPD: sp.mpd, Mode: mode, PPH: pph, Tsbd: tsbd, Cont: rng.Intn(3) == 0, NowMS: it.now, Instant: it.name}
+					startS, snr := int64(0), int64(-1)
+					switch rng.Intn(6) {
+					case 0:
+						startS = []int64{1000, 30, 1600000000, 3599}[rng.Intn(4)]
+					case 1:
+						snr = []int64{0, 5, 100, 1}[rng.Intn(4)]
+					case 2:
+						startS, snr = []int64{1000, 1600000000}[rng.Intn(2)], []int64{5, 7}[rng.Intn(2)]
+					}
+					in := c06in{Kind: "live", Asset: sp.path, MPD: sp.mpd, Mode: mode, PPH: pph, Tsbd: tsbd, Cont: rng.Intn(3) == 0, StartS: startS, Snr: snr,
+						NowMS: startS*1000 + it.now, Instant: it.name}
+					if startS != 0 {
+						c.Count("config/start")
+					}
+					if snr > 0 {
+						c.Count("config/snr")
+					}
 					lr.fetchAll = rng.Intn(40) == 0
 					term, ok := lr.live(id, in, a, true)
 					acc := "accepted"
@@ -720,7 +754,7 @@ func run(c *lib.Ctx) error {
 	// implementation must still agree (a panic is C08's finding, not reported here)
 	for _, pph := range []int64{0, 5000, 3601, -1, -60} {
 		for _, mode := range modes {
-			in := c06in{Kind: "live", Asset: "testpic_2s", MPD: "Manifest.mpd", Mode: mode, PPH: pph, Tsbd: -1, NowMS: 100000 + rng.Int63n(100000), Instant: "pph-out-of-range"}
+			in := c06in{Kind: "live", Asset: "testpic_2s", MPD: "Manifest.mpd", Mode: mode, PPH: pph, Tsbd: -1, Snr: -1, NowMS: 100000 + rng.Int63n(100000), Instant: "pph-out-of-range"}
 			term, ok := lr.live(id, in, byPath["testpic_2s"], false)
 			c.Count("live/" + mode + "/pph-out-of-range")
 			if ok {
@@ -767,7 +801,12 @@ func run(c *lib.Ctx) error {
 		if si.PPH != nil {
 			pph = lib.Zs(int64(*si.PPH))
 		}
-		terms = append(terms, fmt.Sprintf("CSplit %d %s %d %s %s %s %s\n  [%s]\n  %d %s", id, pph, si.SegDurMS, coqMode(si.Mode), lib.Cbool(si.Cont), lib.Zs(int64(si.StartTimeMS)), lib.Zs(int64(si.NowMS)),
+		snr := 1 // cfg.getStartNr() without a configured start number
+		if si.StartNr != nil {
+			snr = *si.StartNr
+		}
+		terms = append(terms, fmt.Sprintf("CSplit %d %s %d %s %s %s %s %s %s\n  [%s]\n  %d %s", id, pph, si.SegDurMS, coqMode(si.Mode), lib.Cbool(si.Cont),
+			lib.Zs(int64(si.StartTimeS)*1000), lib.Zs(int64(snr)), lib.Zs(int64(si.StartTimeMS)), lib.Zs(int64(si.NowMS)),
 			strings.Join(ases, "; "), st, ps))
 		id++
 	}
@@ -1004,7 +1043,7 @@ func runSplit(si splitIn) (status int, periods string) {
 			status, periods = 0, "[]"
 		}
 	}()
-	err := app.VerifC06SplitPeriod(mpd, si.SegDurMS, si.PPH, si.Mode == "tlt", si.Mode == "tlnr", si.Cont, si.StartTimeMS, si.NowMS)
+	err := app.VerifC06SplitPeriodCfg(mpd, si.SegDurMS, si.PPH, si.Mode == "tlt", si.Mode == "tlnr", si.Cont, si.StartTimeS, si.StartNr, si.StartTimeMS, si.NowMS)
 	if err != nil {
 		return 500, "[]"
 	}
@@ -1047,13 +1086,23 @@ func genSplit(rng *rand.Rand) splitIn {
 	if rng.Intn(6) == 0 {
 		base = 1700000000000 / (P * 1000) * (P * 1000)
 	}
+	switch rng.Intn(4) {
+	case 0:
+		si.StartTimeS = []int{30, 1000, 1600000000, 7}[rng.Intn(4)]
+	}
+	switch rng.Intn(3) {
+	case 0:
+		v := []int{0, 1, 5, 4294967290}[rng.Intn(4)]
+		si.StartNr = &v
+	}
+	base += si.StartTimeS * 1000
 	si.StartTimeMS = base + rng.Intn(P*1000)
 	si.NowMS = si.StartTimeMS + rng.Intn((3*P+1)*1000)
 	switch rng.Intn(12) {
 	case 0:
 		si.NowMS = si.StartTimeMS - 1 - rng.Intn(2*P*1000)
 	case 1:
-		si.StartTimeMS -= si.StartTimeMS % (P * 1000)
+		si.StartTimeMS -= (si.StartTimeMS - si.StartTimeS*1000) % (P * 1000)
 		si.NowMS = si.StartTimeMS + P*1000*rng.Intn(3)
 	}
 	nAS := 1 + rng.Intn(3)
